@@ -58,6 +58,8 @@ structure DS where
   hsO : Ordering := .lt
   hsCs : List Conn := []
   hsW : List Link := []
+  /-- some end of a connection went away for a reason outside the election (`hfailA`/`hfailB`) -/
+  hsFailed : Bool := false
 
 def hsObs (w : List Link) : String :=
   let f (l : List Nat) := showNats (sortNats l)
@@ -78,9 +80,18 @@ def hsWinners (o : Ordering) (cs : List Conn) : List Conn :=
 
 /-- oracle on the implementation's observation: the winner is open on both nodes; at the end
 both nodes hold exactly the winner -/
-def hsJudge (o : Ordering) (cs : List Conn) (impl : String) (atEnd : Bool) : List String :=
+def hsJudge (o : Ordering) (cs : List Conn) (impl : String) (atEnd : Bool) (failed : Bool := false) : List String :=
   match betweenBr impl "OA", betweenBr impl "OB" with
   | some oa, some ob =>
+    -- with ends failing the winner may be gone (`C18.with_failures_never_two_links`): at rest both
+    -- nodes hold the same connections and at most one
+    if failed then
+      (if !atEnd then [] else
+        match oa, ob with
+        | [], [] => []
+        | [x], [y] => if cs.any (fun c => c.idA == x && c.idB == y) then [] else ["hs-two-links-or-different-links"]
+        | _, _ => ["hs-two-links-or-different-links"])
+    else
     let ws := hsWinners o cs
     (if ws.all (fun c => oa.contains c.idA && ob.contains c.idB) then [] else ["hs-winner-closed"]) ++
     (if !atEnd then [] else
@@ -101,10 +112,27 @@ def stepHs (ds : DS) (op impl : String) : Option (DS × StepOut) :=
   | ["hs", nameA, nameB, cs] =>
     match (splitOnChar cs ',').mapM parseConn? with
     | some cs =>
-      some ({ ds with hsO := nameOrd nameB nameA, hsCs := cs, hsW := hsInit cs }, { model := "ok" })
+      some ({ ds with hsO := nameOrd nameB nameA, hsCs := cs, hsW := hsInit cs, hsFailed := false }, { model := "ok" })
+    | none => some (ds, { model := "bad-op" })
+  | ["hdial", c] =>
+    -- a late dial (`FOp.dial`): a fresh link; the election winner is from now on the winner over
+    -- the larger set (`C18.late_dials_converge`)
+    match parseConn? c with
+    | some c =>
+      let w' := fStep ds.hsO ds.hsW (.dial c)
+      let cs' := ds.hsCs ++ [c]
+      let orc := hsJudge ds.hsO cs' impl false ds.hsFailed
+      some ({ ds with hsCs := cs', hsW := w' }, { model := hsObs w', oracle := orc, nontrivial := true })
+    | none => some (ds, { model := "bad-op" })
+  | ["hfailA", id] | ["hfailB", id] =>
+    match id.toNat? with
+    | some id =>
+      let isA := (words op).head? == some "hfailA"
+      let w' := fStep ds.hsO ds.hsW (if isA then .failA id else .failB id)
+      some ({ ds with hsW := w', hsFailed := true }, { model := hsObs w', oracle := hsJudge ds.hsO ds.hsCs impl false true, nontrivial := w' != ds.hsW })
     | none => some (ds, { model := "bad-op" })
   | ["hend"] =>
-    let orc := hsJudge ds.hsO ds.hsCs impl true
+    let orc := hsJudge ds.hsO ds.hsCs impl true ds.hsFailed
     let out : StepOut := { model := hsObs ds.hsW, oracle := orc, nontrivial := decide (ds.hsCs.length > 1) }
     some (ds, out)
   | [k, id] =>
@@ -114,7 +142,7 @@ def stepHs (ds : DS) (op impl : String) : Option (DS × StepOut) :=
       | some hop =>
         let w' := hsStep ds.hsO ds.hsW hop
         let changed : Bool := w' != ds.hsW
-        let orc := hsJudge ds.hsO ds.hsCs impl false
+        let orc := hsJudge ds.hsO ds.hsCs impl false ds.hsFailed
         let out : StepOut := { model := hsObs w', oracle := orc, nontrivial := changed }
         some ({ ds with hsW := w' }, out)
       | none => none
